@@ -17,7 +17,7 @@ def register(cls):
 
 class ExcelType:
 
-    __slots__ = ('value')
+    __slots__ = ('value',)
 
     native_types = ()
 
@@ -28,6 +28,11 @@ class ExcelType:
         assert isinstance(value, cls.native_types), value
         inst.value = value
         return inst
+
+    def __getnewargs__(self):
+        # Instances are created with their value (see __new__); this is what
+        # copying and (json)pickling need to re-create one.
+        return (self.value,)
 
     @classmethod
     def cast(cls, value):
